@@ -149,7 +149,18 @@ META["C14"] = {
     "technique": "bounded exhaustive enumeration of histories x reload positions x list edits on the implementation, differential (with / without reload) oracle",
 }
 
-ENGINE_OF = {"C14": "seq", "C13": "seq", "C05": "seq", "C11": "seq", "C10": "seq+sched", "C12": "sched", "C03": "seq", "C06": "seq+sched", "C09": "sched", "C08": "seq", "C02": "seq+sched", "C04": "seq+sched", "C01": "seq+sched"}
+META["C16"] = {
+    "level": "exploration",
+    "rule": "exhaustive enumeration of slot-chain programs: all chains of <=2 (quick) / <=3 (thorough) prepare slots, <=3 rule-check slots and <=2 / <=3 statistic slots, each slot with order value 0 or 1 (all collisions, insertion order recorded) and every behaviour (prepare: ok / panic; rule-check: nil / pass result / block with an own result / block by mutating the pooled result / panic; statistic: record / panic in OnEntryPassed / OnEntryBlocked / OnCompleted), with or without a panicking exit handler, followed by 0-2 entries on other chains that recycle the pooled context and result; the call log and the returned *BlockError (before and after the follow-up traffic) are compared with the statement; distinct = call log",
+    "assumptions": [A_CLOCK, A_OVERLAY, "LIFO pool (the recycled context is really reused by the follow-up entries)", "after a panic only 'no panic reaches the caller and the request is admitted' is asserted (the statement says 'absent panics' for the callback clauses)"],
+    "budget_quick": 90,
+    "budget_thorough": 900,
+    "text": "Complete enumeration of all small slot chains and slot behaviours on the real SlotChain / api.Entry / Exit.",
+    "level_note": "Finite program space enumerated completely up to the stated chain sizes.",
+    "technique": "bounded exhaustive enumeration of programs (slot chains x behaviours) executed on the implementation",
+}
+
+ENGINE_OF = {"C16": "seq", "C14": "seq", "C13": "seq", "C05": "seq", "C11": "seq", "C10": "seq+sched", "C12": "sched", "C03": "seq", "C06": "seq+sched", "C09": "sched", "C08": "seq", "C02": "seq+sched", "C04": "seq+sched", "C01": "seq+sched"}
 
 # properties not claimed, with the reason (kept current)
 NOT_APPLICABLE = {}
